@@ -40,6 +40,8 @@ try:
         env["CARGO_TARGET_DIR"] = "/tmp/confirm-target-miri"
     if feats:
         cmd += ["--features", feats]
+    if "--no-default-features" in sys.argv:
+        cmd += ["--no-default-features"]
     if "--rustflags" in sys.argv:
         # the demonstration needs target features (the suite above ran with the default ones)
         env["RUSTFLAGS"] = sys.argv[sys.argv.index("--rustflags") + 1]
